@@ -314,7 +314,23 @@ fn eval_options(tr: Tr, level: Level, occs: &[&Occ], unit_variant: bool, stage: 
             continue;
         }
         if o.name == "supports" && bad_supports && (o.text.contains("bogus") || o.text.contains("struct_struct") || o.text.contains("enum_enum")) {
-            out.push(v("unknown-shape-word", vec![o.range]));
+            // the offending tokens are the items of the list that are no shape word, not the whole option
+            let mut loci = vec![];
+            if let (Some(open), Some(close)) = (o.text.find('('), o.text.rfind(')')) {
+                let mut at = open + 1;
+                for piece in o.text[open + 1..close].split(',') {
+                    let lead = piece.len() - piece.trim_start().len();
+                    let t = piece.trim();
+                    if t.contains("bogus") || t.contains("struct_struct") || t.contains("enum_enum") {
+                        loci.push((o.range.0 + at + lead, o.range.0 + at + lead + t.len()));
+                    }
+                    at += piece.len() + 1;
+                }
+            }
+            if loci.is_empty() {
+                loci.push(o.range);
+            }
+            out.push(v("unknown-shape-word", loci));
         }
         seen.push(o);
     }
